@@ -4,5 +4,9 @@ cd "$(dirname "$0")" || exit 2
 if ! /venv/bin/python -c "import hypothesis" 2>/dev/null; then
   /venv/bin/python -m pip install -q --no-index --find-links /opt/veriftools/wheels --target ./.deps hypothesis || exit 2
 fi
+if ! PYTHONPATH=./.deps /venv/bin/python -c "import atheris" 2>/dev/null; then
+  # optional engine: coverage-guided campaigns (checks degrade gracefully without it)
+  /venv/bin/python -m pip install -q --no-index --find-links /opt/veriftools/wheels --target ./.deps atheris || echo "atheris unavailable: coverage-guided units will be skipped"
+fi
 PYTHONHASHSEED=0 PYTHONPATH="/repo:./.deps" /venv/bin/python -m bctverif.selftest || exit 2
 echo "setup ok"
